@@ -87,6 +87,7 @@ class Contract(object):
         self.check_effect = d.get("check_effect", False)  # prove (not assume) ensures about the effect hook
         self.effect = d.get("effect")             # python-level hook(ctx, ns) -> result, replaces `returns`
         self.proof = d.get("proof", "symbolic")   # 'symbolic' | 'table' (discharged by a @table obligation)
+        self.native_accepts = d.get("native_accepts")   # spec fn(args...) -> bool: run-time twin of `accepts`
         self.log_entry = d.get("log_entry")       # spec fn(args...) -> tuple: appended to the ghost event log at
         #                                            every call of the target (pre-state), see spec.event_log()
         self.pure = d.get("pure")                 # 'str'|'bytes'|'int': result is a function of the arguments
